@@ -85,6 +85,12 @@ func runSeq(h *c06.History) (kit.Case, error) {
 	if recachedExpired(h, cachedOuts, plain) {
 		tags["F23:plain-get-recached-expired-ttl-row"] = true
 	}
+	if writesBigValue(h) {
+		tags["big-value"] = true
+	}
+	if markDoesNotFit(h, cachedOuts, plain) {
+		tags["F26b:mark-does-not-fit-the-cache"] = true
+	}
 	var tl []string
 	for t := range tags {
 		tl = append(tl, t)
@@ -139,6 +145,49 @@ func recachedExpired(h *c06.History, cached, plain []string) bool {
 					if c == o.CC {
 						return true
 					}
+				}
+			}
+		}
+		return false
+	}
+	return false
+}
+
+// writesBigValue: some write of the history carries a value within 100 bytes of, or above, the size at
+// which its entry stops fitting the cache
+func writesBigValue(h *c06.History) bool {
+	big := func(v string) bool { return len(c06.Unhex(v)) >= cacheMaxEntry-100 }
+	for _, o := range h.Ops {
+		if big(o.V) {
+			return true
+		}
+		for _, it := range o.Items {
+			if big(it[2]) {
+				return true
+			}
+		}
+	}
+	return false
+}
+
+// markDoesNotFit recognises finding F26b by what was observed: the first output that differs between the
+// cached and the uncached instance belongs to a point read of a key whose concatenation pKey ++ cCols has
+// exactly chunkSize - 5 = 65531 bytes (the one length at which fastcache stores "known missing" and
+// ignores the one-byte mark)
+func markDoesNotFit(h *c06.History, cached, plain []string) bool {
+	const edge = cacheMaxEntry - 1
+	for j := range cached {
+		if cached[j] == plain[j] {
+			continue
+		}
+		o := h.Ops[j]
+		switch o.Op {
+		case "Get", "TTLGet":
+			return len(c06.Unhex(o.PK))+len(c06.Unhex(o.CC)) == edge
+		case "GetBatch":
+			for _, c := range o.CCs {
+				if len(c06.Unhex(o.PK))+len(c06.Unhex(c)) == edge {
+					return true
 				}
 			}
 		}
